@@ -217,7 +217,7 @@ def script_strategy(version, all_metrics, order, complete=None):
                     # what a terminal sends for cursor keys, bracketed paste, backspace ...: part of the answer, hence not legal
                     val = draw(st.sampled_from(V.table[m]))
                     a = draw(st.sampled_from(("\x1b[D" + val, val + "\x1b[1;5C", "\x1b[A", "\x1b[200~" + val + "\x1b[201~", val + "\x08", "\x7f" + val,
-                                              "\x00" + val, val + "\x1b", "\x1bO" + val, "^[[D" + val, val + "\\n", val + "&#10;", "%" + "%02X" % ord(val[0]) + val[1:])))
+                                              "\x00" + val, val + "\x1b", "\x1bO" + val, "^[[D" + val, val + "\\n", val + "&#10;", val + "\udcff", "\udcc3" + val, "\udc80", "%" + "%02X" % ord(val[0]) + val[1:])))
                 elif k == 0:
                     a = draw(st.text(alphabet=SAFE_JUNK, max_size=6))
                 elif k == 1:
